@@ -175,10 +175,13 @@ impl<'a> Compiler<'a> {
             hash_key: n.handle,
             arity: n.arguments.len() as u32,
         };
-        if self.jump_table.contains(n.name.as_ref()) {
-            return Err(self.error(CompilationErrorPayload::DuplicateName(n.name.to_string())));
+        // functions are identified by their full path: the same short name may be reused in
+        // different modules, the same full path may not be defined twice
+        let full_name = n.full_name();
+        if self.jump_table.contains(full_name.as_str()) {
+            return Err(self.error(CompilationErrorPayload::DuplicateName(full_name)));
         }
-        self.jump_table.insert(n.full_name(), metadata).unwrap();
+        self.jump_table.insert(full_name, metadata).unwrap();
         Ok(())
     }
 
